@@ -15,7 +15,7 @@ pub const ASSUMPTIONS: &[&str] = &[
     "text-level conversions (decode = print, encode = parse) are only required to be byte-stable for Data constants in the encoding the toolchain itself builds; the textual syntax cannot carry definite/indefinite CBOR choices",
 ];
 
-pub const RULE: &str = "programs from the chaotic term generator enriched with constants of every type nesting (big integers, byte strings up to 1000 bytes incl. > 64-byte chunks, unicode strings, nested lists/pairs, Data with definite and indefinite containers, BigUInt/BigNInt forms and all constructor-tag ranges) in the binder forms Name / NamedDeBruijn / DeBruijn / FakeNamedDeBruijn and several versions. Checked: from_flat(to_flat(p)) = p (own deep comparison incl. binder texts/uniques), same through CBOR and hex; to_flat(from_flat(b)) = b bit for bit; decode->print->parse->encode reproduces b; SerializableProgram JSON round trip keeps version, code bytes and hash, and the hash equals an independently computed blake2b-224; address payment part = that hash. Non-trivial = the program has a composite or Data constant with an indefinite container or a byte string > 64 bytes, or >= 3 binders; distinct by flat bytes.";
+pub const RULE: &str = "programs from the chaotic term generator enriched with constants of every type nesting (big integers, byte strings up to 1000 bytes incl. > 64-byte chunks, unicode strings, nested lists/pairs, Data with definite and indefinite containers, BigUInt/BigNInt forms and all constructor-tag ranges) in the binder forms Name / NamedDeBruijn / DeBruijn / FakeNamedDeBruijn and several versions. Checked: from_flat(to_flat(p)) = p (own deep comparison incl. binder texts/uniques), same through CBOR and hex; to_flat(from_flat(b)) = b bit for bit; decode->print->parse->encode reproduces b; SerializableProgram JSON round trip keeps version, code bytes and hash, and the hash equals an independently computed blake2b-224; address payment part = that hash; blueprint entries with valid but foreign code bytes (longer CBOR length header, chunked byte string, bytes after the flat stream, double wrapping) published with the true hash of those bytes are either refused or reproduced bit for bit on save. Non-trivial = the program has a composite or Data constant with an indefinite container or a byte string > 64 bytes, or >= 3 binders; distinct by flat bytes.";
 
 fn binders(t: &T) -> usize {
     match t {
@@ -613,6 +613,95 @@ fn judge_nested_data(src: &mut Src, st: &mut Stats) -> CheckResult {
     Ok(())
 }
 
+/// Blueprint entries written by other tools: valid but not byte-identical to what this toolchain
+/// emits (non-minimal CBOR length header, chunked byte string, bytes after the end of the flat
+/// stream), published with the true ledger hash of those bytes. Loading such an entry may be
+/// refused; if it is accepted, saving it must reproduce its code and hash bit for bit, and the
+/// hash the tools compute must be the published one.
+fn judge_foreign_entry(src: &mut Src, st: &mut Stats) -> CheckResult {
+    st.eval();
+    let t = gen_program_term(src, false);
+    let version = gen_version(src);
+    let p_db = Program { version, term: t.to_db() };
+    let Ok(flat) = p_db.to_flat() else { return Ok(()) };
+    let Ok(canonical) = p_db.to_cbor() else { return Ok(()) };
+    let lang: u8 = *src.pick(&[1u8, 2, 3]);
+    let header = |len: usize, form: usize| -> Vec<u8> {
+        // CBOR major type 2 with the length in the shortest (0) or a longer form
+        match (form, len) {
+            (0, l) if l < 24 => vec![0x40 | l as u8],
+            (0, l) | (1, l) if l < 256 => vec![0x58, l as u8],
+            (0, l) | (1, l) | (2, l) if l < 65536 => vec![0x59, (l >> 8) as u8, l as u8],
+            (_, l) => vec![0x5a, (l >> 24) as u8, (l >> 16) as u8, (l >> 8) as u8, l as u8],
+        }
+    };
+    let (variant, bytes): (&str, Vec<u8>) = match src.weighted(&[2, 3, 2, 2, 1]) {
+        0 => ("canonical", canonical.clone()),
+        1 => {
+            let form = 1 + src.below(3);
+            let mut b = header(flat.len(), form);
+            b.extend_from_slice(&flat);
+            ("longer-length-header", b)
+        }
+        2 => {
+            let mut f = flat.clone();
+            for _ in 0..1 + src.below(3) {
+                f.push(src.below(256) as u8);
+            }
+            let mut b = header(f.len(), 0);
+            b.extend_from_slice(&f);
+            ("bytes-after-the-flat-stream", b)
+        }
+        3 => {
+            // indefinite-length byte string in two chunks
+            let cut = src.below(flat.len() + 1);
+            let mut b = vec![0x5f];
+            for chunk in [&flat[..cut], &flat[cut..]] {
+                b.extend(header(chunk.len(), 0));
+                b.extend_from_slice(chunk);
+            }
+            b.push(0xff);
+            ("chunked-byte-string", b)
+        }
+        _ => {
+            // the canonical bytes wrapped once more (double CBOR wrapping, as some tools publish)
+            let mut b = header(canonical.len(), 0);
+            b.extend_from_slice(&canonical);
+            ("double-wrapped", b)
+        }
+    };
+    let mut pre = vec![lang];
+    pre.extend_from_slice(&bytes);
+    let hash = hex::encode(blake2b_224(&pre));
+    let code = hex::encode(&bytes);
+    let input = json!({"variant": variant, "compiledCode": code, "hash": hash, "language": lang, "term": t.show().chars().take(300).collect::<String>()});
+    let entry = json!({"compiledCode": code, "hash": hash});
+    let loaded = no_panic(|| serde_json::from_value::<SerializableProgram>(entry.clone())).map_err(|p| panic_failure("SerializableProgram::deserialize", p, input.clone()))?;
+    let sp = match loaded {
+        Err(e) => {
+            if variant == "canonical" {
+                return Err(fail("own-entry-refused", &input, json!(e.to_string())));
+            }
+            st.class(&format!("foreign-entry:{variant}:refused"));
+            return Ok(());
+        }
+        Ok(sp) => sp,
+    };
+    let saved = serde_json::to_value(&sp).map_err(|e| fail("entry-not-serialisable", &input, json!(e.to_string())))?;
+    if saved["compiledCode"].as_str().map(|s| s.to_lowercase()) != Some(code.clone()) || saved["hash"].as_str() != Some(hash.as_str()) {
+        return Err(fail("loaded-entry-not-reproduced-on-save", &input, json!({"saved": saved})));
+    }
+    let (h, _) = sp.compiled_code_and_hash();
+    if h.to_string() != hash {
+        return Err(fail("loaded-entry-has-another-hash", &input, json!({"tool_hash": h.to_string()})));
+    }
+    st.class(&format!("foreign-entry:{variant}:accepted-and-reproduced"));
+    if variant != "canonical" || flat.len() > 64 {
+        st.nontrivial(&(code, lang));
+    }
+    Ok(())
+}
+
 pub fn run(cx: &mut Cx) -> String {
     if !crate::model::blake2b::self_test() {
         cx.note("harness BLAKE2b self-test failed");
@@ -622,6 +711,7 @@ pub fn run(cx: &mut Cx) -> String {
     cx.prop("binary-roundtrip", tier.of(300_000, 6_000_000), 500, judge_binary);
     cx.prop("cli-decode-encode", tier.of(150_000, 3_000_000), 400, judge_cli_path);
     cx.prop("nested-data-constants", tier.of(150_000, 3_000_000), 400, judge_nested_data);
+    cx.prop("foreign-blueprint-entries", tier.of(100_000, 2_000_000), 400, judge_foreign_entry);
     cx.prop("bls-unsupported", tier.of(2_000, 20_000), 10, judge_bls_unsupported);
     RULE.to_string()
 }
